@@ -79,6 +79,14 @@ var c14Graphics = func() [][]byte {
 			e.SetCReg(0, false, ivg.PaletteIndexColor(i))
 			path(&e, 0)
 		}
+		// the palette entry is still the palette entry after the register of the same number was overwritten
+		e.SetCSel(1)
+		e.SetCReg(0, false, rgba(0x20, 0x10, 0x08, 0x40))
+		e.SetCSel(0)
+		e.SetCReg(0, false, ivg.PaletteIndexColor(1))
+		path(&e, 0)
+		e.SetCReg(0, false, ivg.BlendColor(0x55, 0x81, 0xc1)) // palette[1] blended with CREG[1]
+		path(&e, 0)
 		b, _ := e.Bytes()
 		out = append(out, append([]byte(nil), b...))
 	}
@@ -152,7 +160,7 @@ func init() {
 	mc.Register(&mc.Check{
 		ID:    "C14",
 		Level: "model_checking",
-		Rule: fmt.Sprintf("engine S over option lists: every list of <=4 (thorough <=6) options over a %d-option alphabet (WithPalette of two palettes incl. invalid, gradient-looking and transparent entries; WithColorAt for indices {0,1,63} x 7 colour values: opaque RGBA, translucent NRGBA, Gray, RGBA64, a custom color.Color reporting r>a, invalid premultiplied RGBA, gradient-looking RGBA) x 4 graphics (palette indices in registers, blends with palette operands, paths filled from the initial colour registers with number registers preset so that a reinterpretation as gradient would be valid, suggested palette in the metadata) x sinks {recorder, Renderer over a recording rasteriser}. ", no) +
+		Rule: fmt.Sprintf("engine S over option lists: every list of <=4 (thorough <=6) options over a %d-option alphabet (WithPalette of two palettes incl. invalid, gradient-looking and transparent entries; WithColorAt for indices {0,1,63} x 7 colour values: opaque RGBA, translucent NRGBA, Gray, RGBA64, a custom color.Color reporting r>a, invalid premultiplied RGBA, gradient-looking RGBA) x 4 graphics (palette indices in registers incl. after the like-numbered register was overwritten, blends with palette operands, paths filled from the initial colour registers with number registers preset so that a reinterpretation as gradient would be valid, suggested palette in the metadata) x sinks {recorder, Renderer over a recording rasteriser, the same Renderer a second time}. ", no) +
 			"Reference: suggested palette, options applied in order (colour model conversion to premultiplied RGBA), then every entry that is not a valid premultiplied colour replaced by opaque black; the Reset palette and every paint must equal the reference VM's; bytes, palette arrays and option colours unmodified. " +
 			"states = option lists executed, transitions = options applied; non-trivial = list containing an invalid or gradient-looking user colour",
 		Assumptions: []string{"WithColorAt with an index outside 0..63 is a caller error outside the quantifier"},
@@ -283,10 +291,6 @@ func c14Check(w *mc.W, cs *c14Case) {
 	var ras rec.Raster
 	rect := image.Rect(0, 0, 32, 32)
 	z.SetRasterizer(&ras, rect)
-	if err := decode.Decode(&z, src, opts...); err != nil {
-		fail("decode-error", err.Error())
-		return
-	}
 	var vm ref.VM
 	vm.Reset(pal)
 	var wantPaints []ref.Paint
@@ -308,26 +312,36 @@ func c14Check(w *mc.W, cs *c14Case) {
 			}
 		}
 	}
-	var gotPaints []rec.Paint
-	for i := range ras.Calls {
-		if ras.Calls[i].K == rec.RDraw {
-			gotPaints = append(gotPaints, ras.Calls[i].Paint)
-		}
-	}
-	for i := range gotPaints {
-		if gotPaints[i].Kind == 2 {
-			fail("paint:user-colour-run-as-gradient", fmt.Sprintf("path %d is painted with a gradient (%s); no gradient value was written by the graphic", i, gotPaints[i]))
+	// decoded twice into the same Renderer with the same options: the second decode starts from
+	// the (same) effective palette again, not from what the first left in the registers
+	for round, sfx := range []string{"", ":second-decode-into-the-same-renderer"} {
+		_ = round
+		ras.ResetLog()
+		if err := decode.Decode(&z, src, opts...); err != nil {
+			fail("decode-error"+sfx, err.Error())
 			return
 		}
-	}
-	if len(gotPaints) != len(wantPaints) {
-		fail("paint:count", fmt.Sprintf("%d paths drawn, reference draws %d (reference palette %v...)", len(gotPaints), len(wantPaints), pal[:3]))
-		return
-	}
-	for i := range gotPaints {
-		if gotPaints[i].Kind != 1 || !gotPaints[i].FlatOK || gotPaints[i].Flat8 != wantPaints[i].Flat {
-			fail("paint:colour", fmt.Sprintf("drawn path %d painted %s, reference %v", i, gotPaints[i], wantPaints[i].Flat))
+		var gotPaints []rec.Paint
+		for i := range ras.Calls {
+			if ras.Calls[i].K == rec.RDraw {
+				gotPaints = append(gotPaints, ras.Calls[i].Paint)
+			}
+		}
+		for i := range gotPaints {
+			if gotPaints[i].Kind == 2 {
+				fail("paint:user-colour-run-as-gradient"+sfx, fmt.Sprintf("path %d is painted with a gradient (%s); no gradient value was written by the graphic", i, gotPaints[i]))
+				return
+			}
+		}
+		if len(gotPaints) != len(wantPaints) {
+			fail("paint:count"+sfx, fmt.Sprintf("%d paths drawn, reference draws %d (reference palette %v...)", len(gotPaints), len(wantPaints), pal[:3]))
 			return
+		}
+		for i := range gotPaints {
+			if gotPaints[i].Kind != 1 || !gotPaints[i].FlatOK || gotPaints[i].Flat8 != wantPaints[i].Flat {
+				fail("paint:colour"+sfx, fmt.Sprintf("drawn path %d painted %s, reference %v", i, gotPaints[i], wantPaints[i].Flat))
+				return
+			}
 		}
 	}
 	if !bytes.Equal(src, srcCopy) {
